@@ -64,7 +64,9 @@ func boundsCase(c *ev.Case) {
 			return false
 		}
 		want := refSub(vals, start, end)
-		c.Logf("SubSlice(%s, %d, %d) -> %s", show(vals), start, end, show(got))
+		if c.Logging() {
+			c.Logf("SubSlice(%s, %d, %d) -> %s", show(vals), start, end, show(got))
+		}
 		c.Add("calls/SubSlice", 1)
 		if !eqSeq(got, want) {
 			c.Failf("SubSlice", "SubSlice(%v (cap %d), start=%d, end=%d) = %v, documented window is %v", vals, cap(s), start, end, got, want)
@@ -97,7 +99,9 @@ func boundsCase(c *ev.Case) {
 			return false
 		}
 		want := refCopy(vals, start, length)
-		c.Logf("Copy(%s, %d, %d) -> %s", show(vals), start, length, show(got))
+		if c.Logging() {
+			c.Logf("Copy(%s, %d, %d) -> %s", show(vals), start, length, show(got))
+		}
 		c.Add("calls/Copy", 1)
 		if !eqSeq(got, want) {
 			c.Failf("Copy", "Copy(%v (cap %d), start=%d, length=%d) = %v, documented result is %v", vals, cap(s), start, length, got, want)
@@ -165,7 +169,9 @@ func boundsCase(c *ev.Case) {
 		if !c.Guard("Remove", func() { r, v, ok = slicez.Remove(s, ix) }) {
 			return
 		}
-		c.Logf("Remove(%s, %d) -> %s, %d, %v", show(vals), ix, show(r), v, ok)
+		if c.Logging() {
+			c.Logf("Remove(%s, %d) -> %s, %d, %v", show(vals), ix, show(r), v, ok)
+		}
 		c.Add("calls/Remove", 1)
 		if ix >= 0 && ix < n {
 			want := append(clone(vals[:ix]), vals[ix+1:]...)
@@ -203,7 +209,9 @@ func boundsCase(c *ev.Case) {
 			!c.Guard("ContainsFunc", func() { gcf = slicez.ContainsFunc(s, func(y int) bool { return y == x }) }) {
 			return
 		}
-		c.Logf("Index(%s, %d) -> %d ; IndexFunc -> %d ; Contains -> %v ; ContainsFunc -> %v", show(vals), x, gi, gf, gc, gcf)
+		if c.Logging() {
+			c.Logf("Index(%s, %d) -> %d ; IndexFunc -> %d ; Contains -> %v ; ContainsFunc -> %v", show(vals), x, gi, gf, gc, gcf)
+		}
 		c.Add("calls/Index+Contains", 4)
 		if gi != want || gf != want || gc != (want >= 0) || gcf != (want >= 0) {
 			c.Failf("Index", "in %v (cap %d) value %d: Index=%d IndexFunc=%d Contains=%v ContainsFunc=%v, first occurrence is at %d", vals, cap(s), x, gi, gf, gc, gcf, want)
@@ -234,7 +242,9 @@ func boundsCase(c *ev.Case) {
 			if !c.Guard("Equal", func() { got = slicez.Equal(a, b) }) {
 				return false
 			}
-			c.Logf("Equal(%s, %s) [%s] -> %v", show(a), show(b), what, got)
+			if c.Logging() {
+				c.Logf("Equal(%s, %s) [%s] -> %v", show(a), show(b), what, got)
+			}
 			c.Add("calls/Equal", 1)
 			if got != want {
 				c.Failf("Equal", "Equal(%v, %v) [%s] = %v, want %v", a, b, what, got, want)
@@ -306,7 +316,9 @@ func boundsCase(c *ev.Case) {
 		if !c.Guard("Chunk", func() { pieces = slicez.Chunk(s, size) }) {
 			return
 		}
-		c.Logf("Chunk(%s, %d) -> %v", show(vals), size, pieces)
+		if c.Logging() {
+			c.Logf("Chunk(%s, %d) -> %v", show(vals), size, pieces)
+		}
 		c.Add("calls/Chunk", 1)
 		if !checkPieces(c, "Chunk", pieces, vals, size) {
 			return
@@ -329,7 +341,9 @@ func boundsCase(c *ev.Case) {
 		}) {
 			return
 		}
-		c.Logf("ChunkProcess(%s, %d) -> callbacks %v, err %v", show(vals), size, seen, err)
+		if c.Logging() {
+			c.Logf("ChunkProcess(%s, %d) -> callbacks %v, err %v", show(vals), size, seen, err)
+		}
 		c.Add("calls/ChunkProcess", 1)
 		if overrun {
 			c.Failf("ChunkProcess-pieces", "ChunkProcess(%v, %d) made more than %d callbacks", vals, size, limit)
@@ -362,7 +376,9 @@ func boundsCase(c *ev.Case) {
 			}) {
 				return
 			}
-			c.Logf("ChunkProcess(%s, %d) with callback %d failing -> %d callbacks, err %v", show(vals), size, k, calls, err)
+			if c.Logging() {
+				c.Logf("ChunkProcess(%s, %d) with callback %d failing -> %d callbacks, err %v", show(vals), size, k, calls, err)
+			}
 			if calls != k {
 				c.Failf("ChunkProcess-continued-after-error", "ChunkProcess(%v, %d): callback %d of %d returned an error, yet %d callbacks were made", vals, size, k, len(seen), calls)
 				return
@@ -399,7 +415,9 @@ func boundsCase(c *ev.Case) {
 			!c.Guard("Values", func() { gs = slicez.Values(func(x int) string { return strconv.Itoa(x * 3) }, live...) }) {
 			return
 		}
-		c.Logf("Values(identity, %v) -> %s ; Values(itoa(3x)) -> %v", orig, show(got), gs)
+		if c.Logging() {
+			c.Logf("Values(identity, %v) -> %s ; Values(itoa(3x)) -> %v", orig, show(got), gs)
+		}
 		c.Add("calls/Values", 2)
 		c.Add(fmt.Sprintf("values_with_%d_slices", nss), 1)
 		if !eqSeq(got, want) {
